@@ -35,7 +35,8 @@ META = dict(
                 "points of meshes up to 24 cells/axis (T). pad modes constant/edge/wrap/symmetric/reflect only (the "
                 "index-map modes); resampling ties (target centre on a source face) are set-valued on every embedding. "
                 "region2slices is constrained for whole-cell boxes only (the property is silent otherwise); bc and other "
-                "metadata are not compared. Trusted: TLC, harness/tlaval.py, the embedding/projection adapter."),
+                "metadata are not compared. Trusted: TLC, harness/tlaval.py, the embedding/projection adapter."
+                " A second model, spec/PadOpt.tla (stage PadOpt, harness/padopt.py), covers the np.pad modes and options that are not index maps (constant_values, maximum/minimum/mean/median with stat_length, linear_ramp with end_values) for data and validity, with its own M/R/T channels (notes/PadOpt.md)."),
     technique="TLA+ lattice model (Lattice.tla, Cells.tla, C07.tla) + TLC exhaustive; spec states replayed into code; code traces validated by TLC (C07Trace.tla)",
     design_ref="DESIGN.md section 7 C07",
 )
@@ -770,6 +771,9 @@ def run(ctx):
         "a resampling target centre on a source face may take either neighbour on every embedding",
         "region2slices is only constrained for whole-cell regions",
     ]
+    # stage PadOpt (spec/PadOpt.tla): np.pad modes and options beyond the five index maps, for data AND validity
+    from .. import padopt
+    padopt.run_stage(ctx, df, "C07_PadFollowsMode")
     return core.finish(ctx, rule=RULE, extra={"embeddings": [e.name for e in embs]})
 
 
@@ -778,6 +782,9 @@ def replay(ctx, path):
     with open(path) as fh:
         rp = json.load(fh)
     w = rp["witness"]
+    if "/pad." in rp.get("key", "") and ("widths" in w or "event" in w):
+        from . import padopt as padopt_entry
+        return padopt_entry.replay(ctx, path)
     embs = {e.name: e for e in embed.DYADIC + embed.REAL + embed.seeded(rp.get("seed", ctx.seed), 2)}
     if "case" not in w:
         print("trace witness (re-run the check to reproduce):", json.dumps(w)[:3000])
